@@ -609,6 +609,9 @@ mod n {
         m.overrides.walls.insert(uid(4), WallPropsOverrides { u_value: Some(0.77) });
         m.overrides.windows.insert(uid(0x12), WinPropsOverrides { u_value: None, f_shobst: Some(0.9) });
         m.overrides.windows.insert(uid(0x11), WinPropsOverrides { u_value: Some(1.23), f_shobst: Some(0.45) });
+        // ... and a window whose override entry fixes the U-value alone: its shading factor stays the computed one
+        m.windows.push(window(0x14, uid(4), uid(0xD0), 0.75, 1.0, None, 0.0));
+        m.overrides.windows.insert(uid(0x14), WinPropsOverrides { u_value: Some(2.1), f_shobst: None });
         let d = format!("s0(in={},{:?},x{}) s1(in={},{:?},x{}) w4({:?}, space#{}, next#{}) vent={:?} new={}", in0, k0, m0, in1, k1, m1, b, sp, nx, vent, newb);
         (m, d)
     }
@@ -695,12 +698,13 @@ mod n {
                     c.check("C08.window.u", wp.u_value == wc.u_value(&m.cons), || format!("window u {:?}", wp.u_value));
                     c.check("C11.window.area", wp.area == w.geometry.width * w.geometry.height, || format!("window area {}", wp.area));
                 }
-                // the indicators see the two windows of wall 4 (and never the window without wall)
+                // the indicators see the three windows of wall 4 (and never the window without wall)
                 {
                     let ind_k = m.energy_indicators().K_data;
                     let w4 = &p.walls[&uid(4)];
                     let counted = w4.is_tenv && (w4.bounds == BoundaryType::EXTERIOR || w4.bounds == BoundaryType::GROUND);
-                    let want = if counted { 2.0 * w4.multiplier as f64 } else { 0.0 };
+                    let on_wall4: f64 = m.windows.iter().filter(|w| w.wall == uid(4)).map(|w| (w.geometry.width * w.geometry.height) as f64).sum();
+                    let want = if counted { on_wall4 * w4.multiplier as f64 } else { 0.0 };
                     c.check("C08.windows_of_wall", approx64(ind_k.windows.a, want, 1e-5, 1e-5), || format!("window area in K {} want {}", ind_k.windows.a, want));
                 }
                 // ventilation rate reported with the indicators is the one used inside the U-value calculation
@@ -1604,6 +1608,94 @@ mod n {
             c.check("C14.closed.sane", ind.area_ref > 0.0 && ind.K_data.K > 0.0 && ind.n50_data.n50 > 0.0 && ind.q_soljul_data.q_soljul > 0.0 && ind.props.windows.values().all(|w| matches!(w.f_shobst, Some(f) if (0.0..=1.0).contains(&f))), || format!("{}", fingerprint(&ind)));
             c.nontrivial(fingerprint(&ind));
             c.sample(|| format!("{:?} -> {}", m.meta.climate, fingerprint(&ind)));
+        });
+    }
+
+    // closed models of every size: the seed with whole parts left out, and the models the web editor passes through
+    // while a building is entered element by element (empty model, a space, its floor, wall after wall, the windows)
+    #[test]
+    fn n_c14_closed_family() {
+        drive("C14.closed_family", "closed models with positive sizes: the seed with {both, one, no} windows x shade {yes,no} x bridges {yes,no} x loads / thermostat / schedules {yes,no} x second space {yes,no} x wall override {yes,no}; and the 11 models an editor passes through from the empty model to the seed's first space with its 5 walls and 2 windows: every reported number finite, the result serialises to JSON that loads back", |c| {
+            let mut m = seed_model();
+            let editor = c.flag();
+            if editor {
+                // 0: nothing; 1: the space; 2..=6: + its floor and walls one by one; 7, 8: + the windows; 9: + shade; 10: + bridges
+                let step = c.pick(11);
+                // the editor starts from Model::default() (no building-wide ventilation flow: with one and no volume yet the
+                // air-change rate is infinite - not a model "with positive sizes")
+                m.meta = Model::default().meta;
+                m.spaces.truncate(1);
+                m.walls.retain(|w| w.space == uid(0xA0));
+                m.loads.clear();
+                m.thermostats.clear();
+                m.schedules = Default::default();
+                m.overrides = Default::default();
+                for s in m.spaces.iter_mut() {
+                    s.loads = None;
+                    s.thermostat = None;
+                }
+                if step == 0 {
+                    m.spaces.clear();
+                }
+                m.walls.truncate(step.saturating_sub(1).min(5));
+                let kept: Vec<Uuid> = m.walls.iter().map(|w| w.id).collect();
+                m.windows.retain(|w| kept.contains(&w.wall));
+                m.windows.truncate(step.saturating_sub(6).min(2));
+                if step < 9 {
+                    m.shades.clear();
+                }
+                if step < 10 {
+                    m.thermal_bridges.clear();
+                }
+                if step < 2 {
+                    m.cons = Default::default();
+                }
+                c.note(format!("editor step {}: {} spaces {} walls {} windows", step, m.spaces.len(), m.walls.len(), m.windows.len()));
+            } else {
+                let windows = c.pick(3);
+                let (shade, bridges, loads, second, over) = (c.flag(), c.flag(), c.flag(), c.flag(), c.flag());
+                m.windows.truncate(2 - windows);
+                if !shade {
+                    m.shades.clear();
+                }
+                if !bridges {
+                    m.thermal_bridges.clear();
+                }
+                if !second {
+                    m.spaces.truncate(1);
+                    m.walls.retain(|w| w.space == uid(0xA0));
+                    m.loads.retain(|l| l.id == uid(0xB0));
+                }
+                if !loads {
+                    m.loads.clear();
+                    m.thermostats.clear();
+                    m.schedules = Default::default();
+                    for s in m.spaces.iter_mut() {
+                        s.loads = None;
+                        s.thermostat = None;
+                    }
+                }
+                if !over {
+                    m.overrides = Default::default();
+                }
+                c.note(format!("seed with {} windows, shade {}, bridges {}, loads {}, second space {}, override {}", 2 - windows, shade, bridges, loads, second, over));
+            }
+            c.check("C14.seed.closed", check(&m).is_empty(), || format!("the model is not closed: {:?}", check(&m).iter().map(|w| w.msg.clone()).collect::<Vec<_>>()));
+            let ind = m.energy_indicators();
+            let json = match ind.as_json() {
+                Ok(j) => j,
+                Err(e) => {
+                    c.check("C14.closed.loads_back", false, || format!("result does not serialise: {}", e));
+                    return;
+                }
+            };
+            let back: Result<energy::EnergyIndicators, _> = serde_json::from_str(&json);
+            c.check("C14.closed.loads_back", back.is_ok(), || format!("result JSON does not load back: {:?}", back.as_ref().err().map(|e| e.to_string())));
+            c.check("C14.closed.finite", [ind.area_ref, ind.compactness, ind.vol_env_net, ind.vol_env_gross, ind.K_data.K, ind.n50_data.n50, ind.n50_data.n50_ref, ind.q_soljul_data.q_soljul, ind.q_soljul_data.Q_soljul].iter().all(|x| x.is_finite()), || format!("{}", fingerprint(&ind)));
+            if let Ok(b) = &back {
+                c.check("C14.closed.loads_back_same", fingerprint(b) == fingerprint(&ind), || format!("loaded back as {} instead of {}", fingerprint(b), fingerprint(&ind)));
+            }
+            c.nontrivial(format!("{} {} {} {}", m.spaces.len(), m.walls.len(), m.windows.len(), fingerprint(&ind)));
         });
     }
 
